@@ -485,6 +485,15 @@ func (c *Contract) addClause(text string, line int, file string) error {
 				return err
 			}
 			ls.Invariants = append(ls.Invariants, cl)
+		case "assumes":
+			// a fact about data the loop reads from outside the verified state (disk contents): assumed at the head of
+			// every iteration, never proved; listed as an assumption
+			cl, err := mk("invariant", rest2)
+			if err != nil {
+				return err
+			}
+			cl.Assumed = true
+			ls.Invariants = append(ls.Invariants, cl)
 		case "modifies":
 			if rest2 == "" || rest2 == "nothing" {
 				return nil
